@@ -541,18 +541,22 @@ pub fn parse_number<'a, const FORMAT: u128, const IS_PARTIAL: bool>(
     #[cfg(feature = "format")]
     {
         let base_prefix = format.base_prefix();
-        let mut iter = byte.integer_iter();
-        if base_prefix != 0 && iter.read_if_value_cased(b'0').is_some() {
-            // Check to see if the next character is the base prefix.
-            // We must have a format like `0x`, `0d`, `0o`.
+        if base_prefix != 0 {
+            // Check to see if we have a leading `0` followed by the base prefix.
+            // We must have a format like `0x`, `0d`, `0o`. If the base prefix
+            // does not follow, the `0` is a regular digit and is not consumed.
             // NOTE: The check for empty integer digits happens below so
             // we don't need a redundant check here.
-            is_prefix = true;
-            if iter.read_if_value(base_prefix, format.case_sensitive_base_prefix()).is_some()
-                && iter.is_buffer_empty()
-                && format.required_integer_digits()
+            let mut prefixed = byte.clone();
+            let mut iter = prefixed.integer_iter();
+            if iter.read_if_value_cased(b'0').is_some()
+                && iter.read_if_value(base_prefix, format.case_sensitive_base_prefix()).is_some()
             {
-                return Err(Error::EmptyInteger(iter.cursor()));
+                is_prefix = true;
+                if iter.is_buffer_empty() && format.required_integer_digits() {
+                    return Err(Error::EmptyInteger(iter.cursor()));
+                }
+                byte = prefixed;
             }
         }
     }
